@@ -583,6 +583,7 @@ type rstep struct {
 	user    string
 	pass    string
 	verdict bool
+	round   int // rounds-resp: the number in the message
 }
 
 type rcase struct {
@@ -591,13 +592,17 @@ type rcase struct {
 	// the feature is configured without a permission callback: nobody ever
 	// accepts any credentials
 	nilPerm bool
+	// the context of ReceiveSession ends when the peer is about to send step
+	// cancelAt (-1: never); the transport is a plain io.ReadWriter, so nothing
+	// but the library's own checks reacts to it
+	cancelAt int
 }
 
 func (c rcase) String() string {
 	var sb strings.Builder
-	fmt.Fprintf(&sb, "receiver configured=%v permission-callback-is-nil=%v steps:", c.mechs, c.nilPerm)
+	fmt.Fprintf(&sb, "receiver configured=%v permission-callback-is-nil=%v context-ends-before-step=%d steps:", c.mechs, c.nilPerm, c.cancelAt)
 	for _, s := range c.steps {
-		fmt.Fprintf(&sb, " [%s mech=%q authzid=%q user=%q pass=%q verdict=%v]", s.kind, s.mech, s.authz, s.user, s.pass, s.verdict)
+		fmt.Fprintf(&sb, " [%s mech=%q authzid=%q user=%q pass=%q verdict=%v round=%d]", s.kind, s.mech, s.authz, s.user, s.pass, s.verdict, s.round)
 	}
 	return sb.String()
 }
@@ -638,6 +643,49 @@ func genRCase(t *rapid.T) rcase {
 		c.steps = append(c.steps, s)
 	}
 	c.nilPerm = rapid.IntRange(0, 7).Draw(t, "nilperm") == 0
+	c.cancelAt = -1
+	if rapid.IntRange(0, 5).Draw(t, "roundsScenario") == 0 {
+		// the application's many-round mechanism, played honestly up to a
+		// generated point, possibly with one deviation, then the steps drawn above
+		m := rapid.SampledFrom(roundsNames).Draw(t, "roundsMech")
+		n := roundsOf(m)
+		c.mechs = append(c.mechs, m)
+		proto := rstep{mech: m, user: "juliet", pass: password, verdict: rapid.IntRange(0, 3).Draw(t, "rverdict") > 0}
+		var sc []rstep
+		upto := rapid.IntRange(0, n+1).Draw(t, "roundsUpto")
+		dev := rapid.SampledFrom([]string{"none", "none", "none", "skip", "repeat", "final-early", "abort"}).Draw(t, "roundsDeviation")
+		at := rapid.IntRange(0, n).Draw(t, "roundsDevAt")
+		for k := 0; k <= upto; k++ {
+			st := proto
+			switch {
+			case k == 0:
+				st.kind = "rounds-auth"
+			case k == n:
+				st.kind = "rounds-final"
+			case k > n:
+				st.kind, st.round = "rounds-resp", k
+			default:
+				st.kind, st.round = "rounds-resp", k
+			}
+			if k == at && k > 0 {
+				switch dev {
+				case "skip":
+					st.kind, st.round = "rounds-resp", k+1
+				case "repeat":
+					st.kind, st.round = "rounds-resp", k-1
+				case "final-early":
+					st.kind = "rounds-final"
+				case "abort":
+					st.kind = "abort"
+				}
+			}
+			sc = append(sc, st)
+		}
+		c.steps = append(sc, c.steps...)
+	}
+	if rapid.IntRange(0, 7).Draw(t, "ctxEnds") == 0 {
+		c.cancelAt = rapid.IntRange(0, len(c.steps)).Draw(t, "cancelAt")
+	}
 	return c
 }
 
@@ -658,6 +706,7 @@ type rresult struct {
 	unoffered []string // mechanisms the peer named that are configured but were not in the list the receiver wrote
 	wantAuthn bool     // must authenticate
 	mayAuthn  bool // may authenticate (degenerate but accepted credentials)
+	cancelled bool // the context ended during the exchange
 }
 
 func runReceiver(c rcase) rresult {
@@ -671,6 +720,10 @@ func runReceiver(c rcase) rresult {
 	phase := "header1"
 	// reference model of the profile on the receiving side
 	modelDone := false
+	roundsAt := -1
+	roundsName := ""
+	ctx, cancel := context.WithCancel(context.Background())
+	defer cancel()
 	peer := wire.NewReactive(func(p *wire.Reactive, fresh []byte) []byte {
 		if n := bytes.Count(fresh, []byte("<success")); n > 0 {
 			res.successes += n
@@ -687,6 +740,10 @@ func runReceiver(c rcase) rresult {
 			}
 			if step >= len(c.steps) {
 				return nil
+			}
+			if step == c.cancelAt {
+				cancel()
+				res.cancelled = true
 			}
 			s := c.steps[step]
 			step++
@@ -717,7 +774,42 @@ func runReceiver(c rcase) rresult {
 				// any auth element ends the exchange for PLAIN (success or failure)
 				modelDone = true
 			}
+			roundsOK := func() bool {
+				configured := false
+				for _, m := range c.mechs {
+					configured = configured || m == s.mech
+				}
+				return configured && offeredIn(p.Conn.Output())[s.mech]
+			}
 			switch s.kind {
+			case "rounds-auth":
+				// reference model of the rounds mechanism: roundsAt is the number
+				// of the next message the receiver expects (-1: no exchange)
+				if !modelDone && roundsOK() {
+					roundsAt = 1
+					roundsName = s.mech
+				} else {
+					modelDone = true
+				}
+				return []byte(`<auth xmlns="` + saslNS + `" mechanism="` + s.mech + `">` + b64([]byte("r0")) + `</auth>`)
+			case "rounds-resp":
+				if !modelDone && roundsAt >= 0 && roundsAt == s.round && s.round < roundsOf(roundsName) {
+					roundsAt++
+				} else {
+					modelDone = true
+				}
+				return []byte(`<response xmlns="` + saslNS + `">` + b64([]byte(fmt.Sprintf("r%d", s.round))) + `</response>`)
+			case "rounds-final":
+				if !modelDone && roundsAt >= 0 && roundsAt == roundsOf(roundsName) && s.verdict && !c.nilPerm {
+					res.mayAuthn = true
+					res.wantAuthn = true
+				}
+				modelDone = true
+				el := "response"
+				if roundsAt < 0 {
+					el = "auth"
+				}
+				return []byte(`<` + el + ` xmlns="` + saslNS + `">` + b64([]byte("\x00"+s.user+"\x00"+s.pass)) + `</` + el + `>`)
 			case "auth":
 				authOK(true)
 				return []byte(`<auth xmlns="` + saslNS + `" mechanism="` + s.mech + `">` + plain + `</auth>`)
@@ -734,6 +826,11 @@ func runReceiver(c rcase) rresult {
 				authOK(false)
 				return []byte(`<auth xmlns="` + saslNS + `" mechanism="` + s.mech + `">***</auth>`)
 			case "response":
+				if !modelDone && roundsAt >= 0 && roundsAt == roundsOf(roundsName) && s.verdict && !c.nilPerm {
+					// identity NUL user NUL password is exactly the last message of
+					// the rounds mechanism
+					res.mayAuthn = true
+				}
 				modelDone = true
 				return []byte(`<response xmlns="` + saslNS + `">` + plain + `</response>`)
 			case "response-empty":
@@ -771,7 +868,7 @@ func runReceiver(c rcase) rresult {
 	}
 	var s *xmpp.Session
 	res.panicked = ev.Guard(func() {
-		s, res.err = xmpp.ReceiveSession(context.Background(), peer.Conn, xmpp.Secure,
+		s, res.err = xmpp.ReceiveSession(ctx, peer.Conn, xmpp.Secure,
 			xmpp.NewNegotiator(func(*xmpp.Session, *xmpp.StreamConfig) xmpp.StreamConfig {
 				return xmpp.StreamConfig{Features: []xmpp.StreamFeature{xmpp.SASLServer(perm, mechs...)}}
 			}))
@@ -823,10 +920,19 @@ func checkReceiver(t failer, c rcase) rresult {
 			fail("marked authenticated although the permission callback's last verdict was false")
 		}
 	}
-	if !r.authn && r.wantAuthn {
-		fail("an honest PLAIN exchange with accepted credentials did not authenticate")
+	if !r.authn && r.wantAuthn && !r.cancelled {
+		fail("an honest exchange with accepted credentials did not authenticate")
 	}
-	if (r.successes > 0) != r.authn {
+	if r.cancelled {
+		// establishment may rightly fail after a completed exchange (the context
+		// has ended); success may only have been written for accepted credentials
+		if r.successes > 0 && !r.mayAuthn {
+			fail("<success/> written although no completed exchange with accepted credentials took place (the context had ended)")
+		}
+		if r.authn && r.successes == 0 {
+			fail("marked authenticated without a <success/>")
+		}
+	} else if (r.successes > 0) != r.authn {
 		fail("<success/> written %d times but authn=%v", r.successes, r.authn)
 	}
 	for _, call := range r.calls {
@@ -855,6 +961,9 @@ func TestC03Receiver(t *testing.T) {
 		}
 		if c.nilPerm {
 			classes = append(classes, "recv-no-permission-callback")
+		}
+		if c.cancelAt >= 0 {
+			classes = append(classes, "recv-context-ends-mid-exchange")
 		}
 		ev.Case(len(c.steps) >= 2, c.String(), classes...)
 		r := checkReceiver(rt, c)
